@@ -15,6 +15,7 @@ Obs == ndJsonDeserialize("obs.ndjson")
 Apply(w, s) ==
   CASE s.a = "Update"  -> IF s.ack THEN Update(w, s.req) ELSE w
     [] s.a = "UpdateRejected" -> IF s.ack THEN Update(w, s.req) ELSE UpdateRejected(w, s.req)
+    [] s.a = "UpdateRejectedW" -> IF s.ack THEN Update(w, s.req) ELSE UpdateRejectedW(w, s.req)
     [] s.a = "Scrape"  -> Scrape(w, s.h, s.ok, s.kept, s.total)
     [] s.a = "Restart" -> Restart(w)
     [] s.a = "RestartReloadFails" -> RestartReloadFails(w)
@@ -56,7 +57,7 @@ Walk(id, w, steps, k) ==
            d  == Diff(Proj(w2), s.post) \cup (IF SamplesBad(w, s) THEN {"samples"} ELSE {})
        IN IF d # {}
             THEN {[id |-> id, k |-> k, a |-> s.a, fields |-> d,
-                   newentry |-> (s.a \in {"Update", "UpdateRejected", "Restart", "RestartReloadFails"}),
+                   newentry |-> (s.a \in {"Update", "UpdateRejected", "UpdateRejectedW", "Restart", "RestartReloadFails"}),
                    expected |-> Proj(w2), observed |-> s.post]}
             ELSE Walk(id, w2, steps, k + 1)
 
